@@ -32,6 +32,26 @@ CHECKS = {
    text='Static rule discharge: manual stop in every state sends Cease iff Established, leaves every BGPTimer off, closes, forbids automatic start and ends in Idle; from Idle no path leaves, connects or emits a message except manual start or under the operator flag (with R02.d this gives, by induction, silence after stop for every continuation); manual start connects at once from Idle and is a no-op elsewhere. One known finding (late connect after stop).',
    design='DESIGN.md section 3 C13',
    note='Same trusted base as C01; REST thread-safety not decided.'),
+ 'C04': dict(
+   technique='path-complete abstract interpretation of BGP.parse_buffer on a symbolic receive buffer with interval refinement of the header fields; AST shape rule for dataReceived; who-may-write scan of the buffer',
+   text='Static rule discharge: the deframer reads input only through the accumulated buffer (so its result is a function of the byte stream, not of the segmentation), an incomplete message changes nothing, a dispatched message consumes exactly the header length once with body buf[19:length], the accepted lengths are exactly [19,4096] and the dispatched types {1,2,3,4,5,128}, a framing violation stops parsing, and every True-returning path consumes >= 19 octets (termination of the loop). Equality with a reference deframer on concrete streams is argued from these, not enumerated.',
+   design='DESIGN.md section 3 C04',
+   note='Same trusted base as C01; len()/slice semantics of bytes as modelled in sa/prims.py.'),
+ 'C05': dict(
+   technique='provenance analysis of the OPEN fields (abstract interpretation of send_open + class-sensitive who-may-write scan), path-complete abstract interpretation of Open.construct with interval partition of the AS number, AST dominance/ordering rules for acceptance and 4-octet mode',
+   text='Static rule discharge: every field of the OPEN comes from a constant, from configuration or from a location only constructors/configuration code/a set-once initialiser write; AS_TRANS and capability 65 are emitted exactly per the 65535 boundary; the AS comparison uses the post-capability value, hold = min(configured, proposed); fourbytesas starts False per connection. Two known findings (capability_negotiate mutates the configured capability set; 4-octet mode ignores the local advertisement).',
+   design='DESIGN.md section 3 C05',
+   note='Same trusted base as C01. Acceptance dominance itself is discharged by C01 R01.c (open-accept).'),
+ 'C10': dict(
+   technique='exception-funnel rule (AST: calls inside catch-all try) + escape analysis on the extracted table with struct.unpack/opaque decoders modelled as possibly raising; per-path report counting; effect set of the malformed-UPDATE path; shared-state write scan over yabgp/message/**',
+   text='Static rule discharge: no exception escapes a Twisted callback on any extracted path, each well-framed message yields at most one report on every path, the malformed-UPDATE path in Established only reports (with the raw bytes), counts and restarts the hold timer, and no decoder writes module/class/configuration state (so earlier input cannot change how later messages decode). Termination is C11/C04.',
+   design='DESIGN.md section 3 C10',
+   note='Same trusted base as C01. Library calls other than struct.unpack and the opaque Update codec are assumed not to raise.'),
+ 'C18': dict(
+   technique='path counting on the abstract interpretation of every BGP.send_* method and of every table cell: delta of the concrete counter dictionaries vs number of transport writes / dispatched frames, per type; who-may-write scan',
+   text='Static rule discharge: on every path of every send method and of every (event,state) cell the sent counters move by exactly the messages written per type; on every dispatch path the received counter of the frame type moves by 1 iff the frame has the minimum length of its type; only BGP methods write the dictionaries and the REST view returns the tracked protocol. By induction over events the counters equal the wire counts for every history. One known finding (short OPEN frames are counted).',
+   design='DESIGN.md section 3 C18',
+   note='Same trusted base as C01; effects inside the internal-queue drain loop are seen for one iteration.'),
 }
 
 NOT_APPLICABLE = {}
